@@ -388,8 +388,11 @@ func (mc *mergeChecker) check(c *MCase, nScripted int, obs *mObs) {
 		caseTag = c.Tags[0]
 	}
 	r.Count("verdict:"+exp.Verdict, 1)
-	if exp.Verdict == Unspecified {
+	if exp.Verdict == Unspecified || (exp.ArgsBare && mc.which != "C01" && mc.which != "C02") {
 		r.Count("unspecified_cases", 1)
+		if mc.which == "C05" {
+			mc.sanityC05(c, obs)
+		}
 		return
 	}
 	sample := func() {
@@ -859,7 +862,7 @@ func runMergeChild(which string, c *ev.ChildEnv, res *ev.Result) {
 			if s.N != n {
 				continue
 			}
-			if which != "C01" && (s.Pattern == "plain" || s.Pattern == "collision-after-ignored-drop" || s.Pattern == "decoy-removal-then-set") {
+			if which != "C01" && (s.Pattern == "plain" || s.Pattern == "collision-after-ignored-drop" || s.Pattern == "decoy-removal-then-set" || s.Pattern == "same-value" || s.Pattern == "orig-value-then-other") {
 				continue // the must-fail half belongs to C01
 			}
 			if which == "C03" && s.Path != "create-adjust" {
@@ -869,6 +872,19 @@ func runMergeChild(which string, c *ev.ChildEnv, res *ev.Result) {
 				continue
 			}
 			cases = append(cases, g.genSystematic(id(len(cases)), s))
+		}
+	}
+	if which == "C02" && n == 2 {
+		// every ordered pair of different resource kinds on every path
+		for _, k1 := range resKinds() {
+			for _, k2 := range resKinds() {
+				if k1.name == k2.name {
+					continue
+				}
+				for _, path := range []string{"create-adjust", "create-3p", "update-own", "stop-3p"} {
+					cases = append(cases, g.genPair(id(len(cases)), k1.name, k2.name, path))
+				}
+			}
 		}
 	}
 	for i := 0; i < plan.randomPer; i++ {
@@ -1026,4 +1042,47 @@ func containsToken(s, val string) bool {
 		}
 		off = i + 1
 	}
+}
+
+// sanityC05: what holds for the update list of ANY successful request, also of cases whose outcome the
+// statements leave open (a plugin naming one item twice may be refused or not): one entry per target,
+// and within an entry every hugepage size at most once.
+func (mc *mergeChecker) sanityC05(c *MCase, obs *mObs) {
+	if obs.Err != nil {
+		return
+	}
+	var list []*api.ContainerUpdate
+	switch c.Kind {
+	case "create":
+		list = obs.Create.GetUpdate()
+	case "update":
+		list = obs.Update.GetUpdate()
+	case "stop":
+		list = obs.Stop.GetUpdate()
+	}
+	seen := map[string]bool{}
+	for _, u := range list {
+		if u == nil {
+			continue
+		}
+		if seen[u.ContainerId] {
+			mc.res.Violate("C05/duplicate-target", "two entries for target "+u.ContainerId, c)
+		}
+		seen[u.ContainerId] = true
+		// the updated container's own entry is the runtime's request overlaid by appending: a size the
+		// request itself carried may appear once more (last one wins; accepted, see DESIGN.md)
+		sizes := map[string]int{}
+		if c.Kind == "update" && u.ContainerId == c.Ctr.Id {
+			for _, h := range c.Res.GetHugepageLimits() {
+				sizes[h.PageSize]--
+			}
+		}
+		for _, h := range u.GetLinux().GetResources().GetHugepageLimits() {
+			sizes[h.PageSize]++
+			if sizes[h.PageSize] > 1 {
+				mc.res.Violate("C05/duplicate-field/hugepage", fmt.Sprintf("the entry for %s carries hugepage size %s more than once from the plugins", u.ContainerId, h.PageSize), c)
+			}
+		}
+	}
+	mc.res.Seen("sanity|" + c.Kind)
 }
